@@ -26,7 +26,8 @@ CFG = dict(
           "association list (ASCII-case-insensitive keys) after every call; ~49% trees parsed from text of the harness's own "
           "writer (random \\uXXXX / surrogate-pair / \\/ / short escapes, exponent spellings, insignificant whitespace, repeated "
           "keys, cursor not NUL-terminated), half of them followed by access operations on a random container; ~1.5% chains of "
-          "64..998 nested arrays/objects (API or text). Depth <= 8 otherwise, <= 400 nodes, strings of 0..3000 elements over all "
+          "64..998 nested arrays/objects (API or text); ~1.5% wide shallow trees of 300..3000 mostly empty or tiny containers "
+          "in one text (flat array / flat object / array chain with siblings / two-level; counts around 1000).  Depth <= 8 otherwise, <= 400 nodes, strings of 0..3000 elements over all "
           "bytes 1..255 (control characters, quotes, backslashes, 2/3/4-byte UTF-8, lone continuation bytes, invalid leads). "
           "Every tree is read back through the public API only (is_x, typed getters, const_iterate_x, get by index and by key) "
           "and compared with the generating tree; then serialised compact and formatted (appended after a random prefix), both "
@@ -57,7 +58,7 @@ CFG = dict(
         "duplicate_key_refused": 100, "case_variant_key_refused": 100, "case_variant_lookup": 50,
         "object_member_removed": 100, "array_remove_first": 50, "array_remove_middle": 50, "array_remove_last": 50,
         "array_index_eq_size": 30, "array_index_beyond_size": 30, "absent_key_lookup": 100,
-        "deep_chain_ge_500": 10, "print_buffer_grew_gt_256": 300, "text_tree_duplicate_keys": 100,
+        "deep_chain_ge_500": 10, "wide_tree_ge_1000_containers": 10, "print_buffer_grew_gt_256": 300, "text_tree_duplicate_keys": 100,
         "compare_duplicate_checked": 2000, "iterate_early_stop": 100,
         "sweep_numbers": 2 * 2872, "sweep_key_bytes": 2 * 255, "sweep_string_bytes": 2 * 255,
         "python_records_written": 1000,
